@@ -272,6 +272,7 @@ def check_race(spec, ch, res):
 
         m.InMemoryMetricsStore.put_value_cluster_level = failing_put
     hook = (lambda register: register(FailingProcessor())) if kind == "prep-task-fails" else None
+    del loadgen.FIRED[:]
     try:
         r = racesim.run_race(schedule, hosts, cores, behaviour, ch, horizon=HORIZON, on_error=on_error, faults=faults,
                              rc_factory=rc_factory, track_plugin_hook=hook, linger=90.0 if late else 0.0, line_preempt=lp)
@@ -283,6 +284,10 @@ def check_race(spec, ch, res):
     ft = state["fault_time"]
     if kind == "prep-task-fails" and ft is None:
         ft = 0.0
+    fired = [f for f in loadgen.FIRED if f[0] == {"unsuccessful-abort": "unsuccessful"}.get(kind, kind)]
+    if kind in ("runner-raises", "unsuccessful-abort", "source-raises") and ft is None and fired:
+        # the fault fired inside the parameter source / runner (recorded by the harness at the moment it was raised)
+        ft = fired[0][2]
     if kind in ("runner-raises", "unsuccessful-abort", "source-raises") and ft is None and rc.phase != "complete":
         # the fault is raised inside the parameter source / runner: take the last response of the target task (or the start of its
         # element) as the fault time
